@@ -1476,3 +1476,79 @@ impl Scenario for MigScenario {
 fn _u(_: u64) -> u64 {
     mix(0, 0)
 }
+
+
+// ---------------------------------------------------------------- shared with the C02 sweep
+
+/// A small committed migration over a wallet's real Orchard nullifiers, in a mix of lifecycle states with mined
+/// heights, unsatisfiability marks and failure reports spread over `lo..=hi`, so that a wallet rewind has
+/// something to roll back and the satisfiability oracle has something to look up.
+pub fn sample_migration_state(salt: u64, lo: u32, hi: u32, nfs: &[[u8; 32]]) -> Option<MigrationState> {
+    use zcash_pool_migration::satisfiability::UnsatisfiableKind;
+    let mut r = SubRng::new(salt);
+    let span = (hi.max(lo) - lo + 1) as u64;
+    let pick_h = |r: &mut SubRng| BlockHeight::from_u32(lo + r.below(span) as u32);
+    let nf_for = |r: &mut SubRng, i: usize| -> [u8; 32] { if nfs.is_empty() { r.bytes32() } else { nfs[i % nfs.len()] } };
+    let n_tr = 2 + r.below(3) as usize;
+    let mut txs = vec![];
+    let prep_txid = TxId::from_bytes(r.bytes32());
+    let prep_state = match r.below(3) {
+        0 => MigrationTxState::Mined { txid: prep_txid, height: pick_h(&mut r) },
+        1 => MigrationTxState::Broadcast { txid: prep_txid },
+        _ => MigrationTxState::Proved,
+    };
+    let sched = BlockHeight::from_u32(lo);
+    txs.push(MigrationTransaction::from_parts(MigrationTransferId::new(0), MigrationTxKind::Preparation { layer: 0, index: 0 }, r.bytes32().to_vec(), vec![], sched, scheduling::expiry_height(sched), None, prep_txid, prep_state, None, None, vec![nf_for(&mut r, 0)], None));
+    for i in 0..n_tr {
+        let txid = TxId::from_bytes(r.bytes32());
+        let prep_mined = matches!(prep_state, MigrationTxState::Mined { .. });
+        let (st, unsat, fail) = match r.below(6) {
+            0 if prep_mined => (MigrationTxState::Mined { txid, height: pick_h(&mut r) }, None, None),
+            1 if prep_mined => (MigrationTxState::Broadcast { txid }, None, None),
+            2 => (MigrationTxState::Proved, None, Some(pick_h(&mut r))),
+            3 => (MigrationTxState::Signed, Some((pick_h(&mut r), UnsatisfiableKind::InputsSpent)), None),
+            4 => (MigrationTxState::Proved, None, None),
+            _ => (MigrationTxState::Signed, None, None),
+        };
+        let sh = BlockHeight::from_u32(lo + 1 + i as u32);
+        txs.push(MigrationTransaction::from_parts(MigrationTransferId::new(1 + i as u32), MigrationTxKind::Transfer { crossing: i }, r.bytes32().to_vec(), vec![MigrationTransferId::new(0)], sh, scheduling::expiry_height(sh), Some(BlockHeight::from_u32(144)), txid, st, None, unsat, vec![nf_for(&mut r, 1 + i)], fail));
+    }
+    let values: Vec<Zatoshis> = (0..n_tr).map(|_| Zatoshis::const_from_u64(1_000_000 * (1 + r.below(50)))).collect();
+    let den = DenominationPlan::from_stored_parts(values, Zatoshis::const_from_u64(15_000), None, Zatoshis::ZERO, Zatoshis::const_from_u64(0), Zatoshis::const_from_u64(0)).ok()?;
+    let status = if txs.iter().any(|t| matches!(t.state(), MigrationTxState::Mined { .. } | MigrationTxState::Broadcast { .. })) { MigrationStatus::InProgress } else { MigrationStatus::Committed };
+    Some(MigrationState::from_parts(status, den, PreparationPlan::from_parts(vec![], vec![]), txs, AnchorBucketInterval::custom(NonZeroU32::new(144).unwrap()), ReplanThreshold::new(50).unwrap()))
+}
+
+/// Everything the SQLite migration store answers about an account's pending migration through its read
+/// interface: one (call, answer) pair per library call (each call is one read of the database and must be
+/// consistent in itself).
+pub fn render_migration_reads(net: zcash_protocol::local_consensus::LocalNetwork, conn: &Connection, acct: zcash_client_sqlite::AccountUuid, tag: &str) -> Vec<(String, String)> {
+    let pm = match PoolMigrations::for_account(net, SimClock(std::sync::Arc::new(1_700_000_000.into())), conn, acct) {
+        Ok(pm) => pm,
+        Err(e) => return vec![(format!("{tag}/for_account"), format!("ERR {e:?}"))],
+    };
+    let state = match pm.get_migration() {
+        Ok(Some(s)) => s,
+        Ok(None) => return vec![(format!("{tag}/get_migration"), "none".into())],
+        Err(e) => return vec![(format!("{tag}/get_migration"), format!("ERR {e:?}"))],
+    };
+    let mut out = vec![(format!("{tag}/get_migration"), format!("{:?} {:?}", state.status(), state.transactions().iter().map(|t| (t.id(), t.state(), t.unsatisfiable(), t.broadcast_failure_at())).collect::<Vec<_>>()))];
+    for t in state.transactions() {
+        let key = hex::encode(&t.txid().as_ref()[..6]);
+        if !matches!(t.state(), MigrationTxState::Mined { .. }) {
+            out.push((format!("{tag}/sat/{key}"), format!("{:?}", pm.check_step_satisfiability(t, ReorgSettleDepth::new(3)).map_err(|e| format!("{e:?}")))));
+        }
+        out.push((format!("{tag}/mined_height/{key}"), format!("{:?}", pm.mined_height(t.txid()).map_err(|e| format!("{e:?}")))));
+    }
+    out
+}
+
+pub fn store_migration(net: zcash_protocol::local_consensus::LocalNetwork, conn: &mut Connection, acct: zcash_client_sqlite::AccountUuid, state: &MigrationState) -> Result<String, String> {
+    let mut pm = PoolMigrations::for_account(net, SimClock(std::sync::Arc::new(1_700_000_000.into())), conn, acct).map_err(|e| format!("{e:?}"))?;
+    pm.replace_migration(state).map(|_| "stored".to_string()).map_err(|e| format!("{e:?}"))
+}
+
+pub fn cancel_migration(net: zcash_protocol::local_consensus::LocalNetwork, conn: &mut Connection, acct: zcash_client_sqlite::AccountUuid) -> Result<String, String> {
+    let mut pm = PoolMigrations::for_account(net, SimClock(std::sync::Arc::new(1_700_000_000.into())), conn, acct).map_err(|e| format!("{e:?}"))?;
+    pm.cancel_migration().map(|o| format!("{o:?}")).map_err(|e| format!("{e:?}"))
+}
